@@ -6,7 +6,7 @@
    filter carried through include / cc_filter / seeds / the held map. *)
 From Coq Require Import QArith.
 From SC Require Import Base.Prelude Cmp.Cmp Cmp.Logic Cmp.Tolerance Cmp.FloatB64 Cmp.GoTime Cmp.Spec Cmp.CmpProofs
-  Cmp.CollEquiv Cmp.CollEquivProofs Cmp.C16Judge Cmp.TreeProofs Cmp.JudgeProofs Cmp.CollJudgeProofs Resource.Impl Resource.Pull.
+  Cmp.CollEquiv Cmp.CollEquivProofs Cmp.C16Judge Cmp.TreeProofs Cmp.JudgeProofs Cmp.CollJudgeProofs Cmp.MaskJudgeProofs Resource.Impl Resource.Pull.
 Open Scope Z_scope.
 
 Definition mask_ro (paths : list string) (uo : bool) (thr : option Q) : ropts cval (list string) :=
@@ -253,3 +253,158 @@ Proof.
 Qed.
 
 Print Assumptions mask_coll_judge_sound.
+
+(* ---------- the read-mask filter keeps a value guarded and in scope ---------- *)
+(* so the hypotheses of the two read-mask theorems follow from the judge's guard and scope on the values as
+   WRITTEN, and C16_judge_sound covers the read-mask cases with the same kind of scope as the others *)
+Section FilterKeeps.
+  Variable paths : list string.
+  Notation keep := (fun kv : string * cval => existsb (String.eqb (fst kv)) paths).
+
+  Lemma existsb_filter_keys k (fs : list (string * cval)) :
+    existsb (String.eqb k) (map fst fs) = false -> existsb (String.eqb k) (map fst (filter keep fs)) = false.
+  Proof.
+    induction fs as [|[k' v] r IH]; [reflexivity|]. cbn [map fst existsb filter]. intros H.
+    apply orb_false_iff in H. destruct H as [H1 H2]. destruct (existsb (String.eqb k') paths); cbn [map fst existsb]; rewrite ?H1; auto.
+  Qed.
+  Lemma nodup_str_filter (fs : list (string * cval)) :
+    nodup_str (map fst fs) = true -> nodup_str (map fst (filter keep fs)) = true.
+  Proof.
+    induction fs as [|[k v] r IH]; [reflexivity|]. cbn [map fst nodup_str filter]. intros N.
+    apply andb_true_iff in N. destruct N as [N1 N2]. apply negb_true_iff in N1.
+    destruct (existsb (String.eqb k) paths); [|apply IH; exact N2]. cbn [map fst nodup_str].
+    rewrite (existsb_filter_keys k r N1), (IH N2). reflexivity.
+  Qed.
+  Lemma forallb_filter_keep {A} (P p : A -> bool) l : forallb P l = true -> forallb P (filter p l) = true.
+  Proof.
+    induction l as [|a r IH]; [reflexivity|]. cbn [forallb filter]. intros H. apply andb_true_iff in H. destruct H as [H1 H2].
+    destruct (p a); [cbn [forallb]; rewrite H1|]; apply IH; exact H2.
+  Qed.
+  Lemma existsb_filter_keep {A} (P p : A -> bool) l : existsb P l = false -> existsb P (filter p l) = false.
+  Proof.
+    induction l as [|a r IH]; [reflexivity|]. cbn [existsb filter]. intros H. apply orb_false_iff in H. destruct H as [H1 H2].
+    destruct (p a); [cbn [existsb]; rewrite H1|]; apply IH; exact H2.
+  Qed.
+  (* a field of the filtered message is the field of the message, or absent *)
+  Lemma get_int_filter k (fs : list (string * cval)) :
+    get_int k (filter keep fs) = get_int k fs \/ get_int k (filter keep fs) = 0.
+  Proof.
+    unfold get_int. induction fs as [|[k' v] r IH]; [left; reflexivity|]. cbn [filter fst].
+    destruct (existsb (String.eqb k') paths) eqn:P; cbn [flookup].
+    - destruct (String.eqb k k'); [left; reflexivity|exact IH].
+    - destruct (String.eqb k k') eqn:E; [|exact IH].
+      apply String.eqb_eq in E. subst k'.
+      (* k is not kept: it is absent from the filtered list *)
+      right. clear IH. induction r as [|[k2 v2] r2 IH2]; [reflexivity|]. cbn [filter fst].
+      destruct (existsb (String.eqb k2) paths) eqn:P2; [|exact IH2]. cbn [flookup].
+      destruct (String.eqb k k2) eqn:E2; [apply String.eqb_eq in E2; subst k2; congruence|exact IH2].
+  Qed.
+
+  Lemma path_filter_wf m : wf m = true -> wf (path_filter paths m) = true.
+  Proof.
+    destruct m as [s|ty v fs u|l|mm]; try (intros H; exact H). cbn [path_filter].
+    destruct paths as [|p ps] eqn:Ep; [reflexivity|]. rewrite <- Ep. cbn [wf]. intros H.
+    apply andb_true_iff in H. destruct H as [H1 H2]. apply andb_true_iff. split.
+    - apply nodup_str_filter. exact H1.
+    - apply forallb_filter_keep. exact H2.
+  Qed.
+  Lemma path_filter_val_guard top m : val_guard top m = true -> val_guard top (path_filter paths m) = true.
+  Proof.
+    destruct m as [s|ty v fs u|l|mm]; try (intros H; exact H). cbn [path_filter].
+    destruct paths as [|p ps] eqn:Ep.
+    - cbn [val_guard forallb]. intros H. apply andb_true_iff in H. destruct H as [H _]. apply andb_true_iff in H. destruct H as [H _].
+      rewrite H. destruct (String.eqb ty ts_full); reflexivity.
+    - rewrite <- Ep. cbn [val_guard]. intros H.
+      apply andb_true_iff in H. destruct H as [H H3]. apply andb_true_iff in H. destruct H as [H1 H2].
+      rewrite H1. cbn [andb]. apply andb_true_iff. split; [|apply forallb_filter_keep; exact H3].
+      destruct (String.eqb ty ts_full); [|reflexivity].
+      apply andb_true_iff in H2. destruct H2 as [S N].
+      destruct (get_int_filter "seconds" fs) as [E|E], (get_int_filter "nanos" fs) as [F|F]; rewrite E, F, ?S, ?N; reflexivity.
+  Qed.
+  Lemma path_filter_wide m : has_wide_nanos m = false -> has_wide_nanos (path_filter paths m) = false.
+  Proof.
+    destruct m as [s|ty v fs u|l|mm]; try (intros H; exact H). cbn [path_filter].
+    destruct paths as [|p ps] eqn:Ep.
+    - intros _. cbn [has_wide_nanos existsb get_int flookup]. destruct (String.eqb ty dur_full); reflexivity.
+    - rewrite <- Ep. cbn [has_wide_nanos]. intros H. apply orb_false_iff in H. destruct H as [H1 H2].
+      apply orb_false_iff. split; [|apply existsb_filter_keep; exact H2].
+      destruct (String.eqb ty dur_full); [|reflexivity]. cbn [andb] in *.
+      destruct (get_int_filter "nanos" fs) as [F|F]; rewrite F; [exact H1|reflexivity].
+  Qed.
+
+  Lemma path_filter_tree_ok e m : tree_ok e (Some m) = true -> tree_ok e (Some (path_filter paths m)) = true.
+  Proof.
+    unfold tree_ok. cbn [opt_guard opt_wide]. intros H. apply andb_true_iff in H. destruct H as [G S].
+    apply andb_true_iff in G. destruct G as [W V].
+    rewrite (path_filter_wf m W), (path_filter_val_guard true m V). cbn [andb].
+    destruct (cfg_nd (cfg_vs e)); [reflexivity|]. cbn [orb] in *.
+    apply negb_true_iff in S. apply negb_true_iff. apply path_filter_wide. exact S.
+  Qed.
+End FilterKeeps.
+
+(* ---------- every kind of case but the lossy one ---------- *)
+Definition mask_scope (c : c16case) : bool :=
+  match c with
+  | KStreamM _ e seed writes _ => stream_scope e seed writes
+  | KCollM _ e _ thr init ops _ =>
+      negb (has_durp e)
+      && (cfg_nd (cfg_vs e)
+          || (forallb (fun p : string * cval => negb (has_wide_nanos (snd p))) init
+              && forallb (fun o : collop => negb (opt_wide (snd o))) ops))
+      && str_nodupb (map fst init)
+  | _ => false
+  end.
+Definition in_scope_every (c : c16case) : bool := in_scope_all c || mask_scope (unwrap c).
+
+Lemma guard_scope_tree_ok e m :
+  opt_guard (Some m) = true -> (cfg_nd (cfg_vs e) || negb (has_wide_nanos m)) = true -> tree_ok e (Some m) = true.
+Proof. intros G S. unfold tree_ok. rewrite G. cbn [andb opt_wide]. exact S. Qed.
+
+Theorem judge_sound_every : forall c,
+  agrees c = true -> C16_guard c = true -> in_scope_every c = true -> C16_ok c = true.
+Proof.
+  intros c A G S. unfold in_scope_every in S. apply orb_true_iff in S. destruct S as [S|S].
+  - apply judge_sound_all; assumption.
+  - unfold agrees in A. apply andb_true_iff in A. destruct A as [_ A]. unfold C16_guard in G. unfold C16_ok.
+    destruct (unwrap c) as [| | | |paths e seed writes emitted|paths e uo thr init ops emitted| |]; try discriminate S.
+    + (* KStreamM *)
+      apply (mask_stream_sound paths e seed writes emitted A).
+      cbn [guard_core mask_scope] in G, S.
+      apply andb_true_iff in G. destruct G as [G Ge]. apply andb_true_iff in G. destruct G as [Gs Gw].
+      destruct (stream_scope_tree_ok e seed writes Gs Gw S) as (Nd & Ts & Tw).
+      unfold mask_stream_scope. cbv zeta. rewrite Ge. cbn [andb].
+      assert (Ts' : tree_ok e (option_map (path_filter paths) seed) = true)
+        by (destruct seed as [s|]; [apply path_filter_tree_ok; exact Ts|apply tree_ok_none]).
+      assert (Tw' : forall w, In w writes -> tree_ok e (Some (path_filter paths w)) = true)
+        by (intros w Hw; rewrite forallb_forall in Tw; apply path_filter_tree_ok; apply (Tw _ Hw)).
+      assert (Gs' : opt_guard (option_map (path_filter paths) seed) = true)
+        by (unfold tree_ok in Ts'; apply andb_true_iff in Ts'; tauto).
+      rewrite Gs'. cbn [andb].
+      assert (Gw' : forallb (fun w => opt_guard (Some (path_filter paths w))) writes = true).
+      { apply forallb_forall. intros w Hw. specialize (Tw' w Hw). unfold tree_ok in Tw'. apply andb_true_iff in Tw'. tauto. }
+      rewrite Gw'. cbn [andb].
+      unfold stream_scope. rewrite Nd. cbn [negb andb].
+      destruct (cfg_nd (cfg_vs e)) eqn:N; [reflexivity|]. cbn [orb].
+      apply andb_true_iff. split.
+      * unfold tree_ok in Ts'. rewrite N in Ts'. cbn [orb] in Ts'. apply andb_true_iff in Ts'. tauto.
+      * rewrite forallb_map. apply forallb_forall. intros w Hw. specialize (Tw' w Hw). unfold tree_ok in Tw'. rewrite N in Tw'.
+        cbn [orb opt_wide] in Tw'. apply andb_true_iff in Tw'. tauto.
+    + (* KCollM *)
+      apply (mask_coll_judge_sound paths e uo thr init ops emitted A).
+      cbn [guard_core mask_scope mask_coll_scope] in *. cbv zeta.
+      apply andb_true_iff in S. destruct S as [S Nid]. apply andb_true_iff in S. destruct S as [Nd Sat].
+      apply andb_true_iff in G. destruct G as [G _]. apply andb_true_iff in G. destruct G as [G Ge].
+      apply andb_true_iff in G. destruct G as [Gi Go].
+      rewrite Nd, Ge, Nid. cbn [andb]. rewrite andb_true_r. apply andb_true_iff. split.
+      * apply forallb_forall. intros p Hp. apply path_filter_tree_ok. apply guard_scope_tree_ok.
+        -- rewrite forallb_forall in Gi. apply (Gi _ Hp).
+        -- destruct (cfg_nd (cfg_vs e)); [reflexivity|]. cbn [orb] in *. apply andb_true_iff in Sat. destruct Sat as [Sa _].
+           rewrite forallb_forall in Sa. apply (Sa _ Hp).
+      * apply forallb_forall. intros o Ho. destruct o as [id [v|]]; cbn [snd option_map]; [|apply tree_ok_none].
+        apply path_filter_tree_ok. apply guard_scope_tree_ok.
+        -- rewrite forallb_forall in Go. apply (Go _ Ho).
+        -- destruct (cfg_nd (cfg_vs e)); [reflexivity|]. cbn [orb] in *. apply andb_true_iff in Sat. destruct Sat as [_ Sb].
+           rewrite forallb_forall in Sb. apply (Sb _ Ho).
+Qed.
+
+Print Assumptions judge_sound_every.
